@@ -99,8 +99,25 @@ WedgeWhy(r) ==
     ELSE IF ~r.alive \/ r.state /= "S" THEN "LinkTakenDown"
     ELSE ""
 
+(* C20 on SECS-I: counters and gauges at the quiescent points of a two-generation scenario *)
+MetWhy(r) ==
+    IF r.fault /= "" THEN "HarnessFault"
+    ELSE IF r.min_inflight < 0 \/ r.min_reconnecting < 0 THEN "MetGaugeNegative"
+    ELSE IF r.m1.Inflight /= 0 \/ r.m2.Inflight /= 0 THEN "MetInflightNotZeroAtQuiescence"
+    ELSE IF r.m1.Reconnecting /= 0 \/ (r.gen2_selected /\ r.m2.Reconnecting /= 0) THEN "MetReconnectingNotZeroAtQuiescence"
+    ELSE IF r.m1.Send - r.m0.Send /= r.peer_got_msgs THEN "MetSentCounterNotWhatThePeerReceived"
+    ELSE IF r.m1.Recv - r.m0.Recv /= r.peer_sent_msgs THEN "MetRecvCounterNotWhatThePeerSent"
+    ELSE IF r.m1.Err - r.m0.Err /= r.sends_t3 THEN "MetErrCounterNotTheTimedOutSends"
+    ELSE IF r.m1.Drop /= r.m0.Drop THEN "MetDropCounterMoved"
+    ELSE IF r.m2.Send /= r.m1.Send \/ r.m2.Recv /= r.m1.Recv THEN "MetCountersMovedAcrossTheReconnect"
+    ELSE ""
+(* C11 on SECS-I: the active role's reconnect counter moves by exactly one per successful re-dial *)
+GenReconnWhy(r) ==
+    IF r.fault = "" /\ ~r.passive /\ r.mode /= "handler-busy-close" /\ r.next_gen_up /\ r.reconnects_delta /= 1 THEN "RecReconnectCounterNotOnePerRedial"
+    ELSE ""
+
 Why(r) == CASE r.t = "e4send" -> SendWhy(r) [] r.t = "e4recv" -> RecvWhy(r) [] r.t = "e4line" -> LineWhy(r)
-            [] r.t = "e4once" -> OnceWhy(r) [] r.t = "e4cont" -> ContWhy(r) [] r.t = "e4gen" -> GenWhy(r) [] r.t = "e4wedge" -> WedgeWhy(r) [] OTHER -> "UnknownLine"
+            [] r.t = "e4once" -> OnceWhy(r) [] r.t = "e4cont" -> ContWhy(r) [] r.t = "e4gen" -> (IF GenWhy(r) /= "" THEN GenWhy(r) ELSE GenReconnWhy(r)) [] r.t = "e4met" -> MetWhy(r) [] r.t = "e4wedge" -> WedgeWhy(r) [] OTHER -> "UnknownLine"
 NextO == /\ l < Len(T) /\ l' = l + 1
          /\ LET w == Why(T[l + 1]) IN IF w = "" THEN TRUE ELSE PrintT(<<"REJECT", l + 1, w>>)
 Judged == TRUE
